@@ -386,3 +386,55 @@ def _stmt_of(func: ast.FunctionDef, node: ast.AST) -> ast.stmt:
     if best is None:
         raise AnalysisError("statement of call not found")
     return best
+
+
+# ---- added: the "detect only the final wave" shortcut (found on the tree: one configuration, one non-final plane)
+_inner_run_c07b = run
+
+
+def run(ctx) -> None:  # noqa: F811
+    ctx.rule("R-FINALONLY", "multislice_and_detect may skip the per-plane bookkeeping (`measurements = None`, detection "
+             "of the final wave after the loops) only when the single exit plane is the last slice: the guard of that "
+             "shortcut must contain a conjunct comparing potential.exit_planes (an element of it) with num_slices - 1. "
+             "A guard on the size of the ensemble alone also takes the shortcut for exit_planes=(k,) with k before "
+             "the last slice, or for the entrance plane (-1,), and returns the full exit wave instead of plane k — "
+             "for every lazily evaluated frozen-phonon run, whose blocks hold one configuration each")
+    repo = ctx.repo
+    f = repo.function(MS, "multislice_and_detect")
+    nz = Normalizer()
+    sites = []
+    for i in walk_no_nested(f.node):
+        if isinstance(i, ast.If):
+            for arm, pol in ((i.body, True), (i.orelse, False)):
+                for st in arm:
+                    if isinstance(st, ast.Assign) and any(dotted(t) == "measurements" for t in st.targets) and \
+                            isinstance(st.value, ast.Constant) and st.value.value is None:
+                        sites.append((i, pol, st))
+    uses = [i for i in walk_no_nested(f.node) if isinstance(i, ast.If) and "measurements is None" in norm_text(i.test)
+            and any(isinstance(c, ast.Call) and isinstance(c.func, ast.Attribute) and c.func.attr == "detect"
+                    for st in i.body for c in ast.walk(st))]
+    if not sites and not uses:
+        ctx.ok("R-FINALONLY", f"{f.qualname}:no shortcut", f.where, "every run allocates per-plane measurements")
+    for i, pol, st in sites:
+        conj = i.test.values if isinstance(i.test, ast.BoolOp) and isinstance(i.test.op, ast.And) else [i.test]
+        guarded = False
+        if pol:
+            for c in conj:
+                if isinstance(c, ast.Compare) and len(c.ops) == 1 and isinstance(c.ops[0], ast.Eq):
+                    sides = [c.left, c.comparators[0]]
+                    has_ep = [s for s in sides if "exit_planes" in norm_text(s)]
+                    other = [s for s in sides if "exit_planes" not in norm_text(s)]
+                    if has_ep and other:
+                        o = other[0]
+                        last = o.elts[0] if isinstance(o, ast.Tuple) and len(o.elts) == 1 else o
+                        p = nz.norm(last)
+                        guarded = any(p == nz.norm(ast.parse(e, mode="eval").body) for e in (
+                            "potential.num_slices - 1", "len(potential) - 1", "potential.num_slices - 1.0",
+                            "num_slices - 1"))
+        ctx.check(guarded, "R-FINALONLY", f"{f.qualname}:final-wave shortcut", f.loc(i),
+                  f"shortcut taken under `{norm_text(i.test)[:90]}`: the single exit plane is the last slice",
+                  f"`measurements = None` (detect only the final wave) is taken under `{norm_text(i.test)[:90]}`, which "
+                  "does not require the exit plane to be the last slice: a potential with one configuration and "
+                  "exit_planes=(k,), k < num_slices-1 (every block of a lazy frozen-phonon run) yields the full exit "
+                  "wave instead of the wave at plane k", key_detail="finalonly")
+    _inner_run_c07b(ctx)
